@@ -946,6 +946,33 @@ pub fn analyze(sc: &Scenario, out: &RunOut) -> Analysis {
     for (s, exp) in sink_exp.iter().enumerate() {
         let got = &out.bufs[s];
         let cap = spec.bufs[s];
+        if got.len() > cap {
+            viol!("sink_capacity", "buffer {} holds {} events although its capacity is {}", s, got.len(), cap);
+        }
+        if exp.len() > cap && terminated.is_none() {
+            // Overflow: exactly `capacity` events are retained, all of them written,
+            // and of each sender the most recent ones (a suffix of what it sent).
+            if got.len() != cap {
+                viol!("sink_content", "buffer {} (capacity {}) holds {} events after {} writes", s, cap, got.len(), exp.len());
+            }
+            let mut by_sender: BTreeMap<(usize, usize), Vec<i64>> = BTreeMap::new();
+            for (nd, p, val) in exp {
+                by_sender.entry((*nd, *p)).or_default().push(*val);
+            }
+            for (_, v) in got.iter() {
+                if !exp.iter().any(|e| e.2 == *v) {
+                    viol!("sink_content", "buffer {} holds {} which was never written", s, v);
+                }
+            }
+            if by_sender.len() == 1 {
+                let vals = by_sender.values().next().unwrap();
+                let tail: Vec<i64> = vals[vals.len() - cap.min(vals.len())..].to_vec();
+                let g: Vec<i64> = got.iter().map(|x| x.1).collect();
+                if g != tail {
+                    viol!("sink_content", "buffer {} retained {:?} instead of the most recent events {:?}", s, g, tail);
+                }
+            }
+        }
         if exp.len() <= cap && terminated.is_none() {
             let mut e: Vec<i64> = exp.iter().map(|x| x.2).collect();
             let mut g: Vec<i64> = got.iter().map(|x| x.1).collect();
